@@ -52,7 +52,7 @@ PROPS["C04"] = dict(
     kani=["pairs_enum"], searcher=["pairs", "state"],
     design_ref="DESIGN.md section 4, C04",
     technique="contract-based deductive verification (Verus): recursive closed-forest predicate as part of the frame law of every ParserState operation; precondition of pairs::new discharged in state()",
-    level_text="Part (a), emission: proved for all call trees of lawful closures that the tokens appended by any operation form a closed forest (balanced, properly nested, positions non-decreasing, on UTF-8 boundaries, within the text walked), hence every successful parse hands pairs::new a well-formed stream. Part (b), views: see the pairs unit.",
+    level_text="Part (a), emission: proved for all call trees of lawful closures that the tokens appended by any operation form a closed forest (balanced, properly nested, positions non-decreasing, on UTF-8 boundaries, within the text walked), hence every successful parse hands pairs::new a well-formed stream. Part (b), views: pairs::new, Pairs, Pair, Tokens, FlatPairs (len exact after any mix of next / next_back since the F5 fix) and the PairsBuilder API are verified against the sequence of top-level Start indices / Start tokens in the window; node-tag, text and JSON views are decided by a bounded enumeration only.",
     level_note="As C03. Display/Debug/JSON/concat views build strings through format!/serde and are outside the Verus subset; the node-tag views and the text views are decided only by the pairs_search enumeration in the quick tier (bounded stand-in, not counted).",
     assumptions=CORE_ASSUME, not_covered=CORE_NOT_COVERED + ["Display, alternate Display, Debug, to_json: format!/serde code outside every contract - decided only by the pairs_search enumeration (bounded stand-in; known finding F6 for the empty top-level Pairs)",
         "node-tag views (as_node_tag, find_tagged, find_first_tagged: Filter<FlatPairs, impl FnMut>) are iterator-adaptor code outside every contract: decided only by the pairs_search enumeration (bounded stand-in, every forest of <= 3 nodes x every tag assignment)"],
@@ -73,7 +73,7 @@ PROPS["C12"] = dict(
     kani=[], searcher=["state"],
     design_ref="DESIGN.md section 4, C12",
     technique="contract-based deductive verification (Verus) with a ghost 'refused' bit set where inc_call_check_limit refuses; refusal law proved per operation; three operations violate it (known findings F4)",
-    level_text="Unary formulation of the two-run property: limit constant and counter monotone (frame), inc_call_check_limit refuses iff the limit is reached and records it in a ghost bit, every operation whose closures obey the refusal law obeys it too (a refusal during the call makes the call fail), state() turns an Err with the limit reached into the 'call limit reached' error. optional, repeat and negative lookahead do NOT obey the law: recorded as known findings F4 (isolated failing obligations). repeat carries its direct reading as a ghost chain of closure results (it may stop only when the closure fails); limit_reached, CallLimitTracker::default and inc_call_check_limit are verified from their bodies.",
+    level_text="Unary formulation of the two-run property: limit constant and counter monotone (frame), inc_call_check_limit refuses iff the limit is reached and records it in a ghost bit, every operation whose closures obey the refusal law obeys it too (a refusal during the call makes the call fail), state() turns an Err with the limit reached into the 'call limit reached' error, and the state invariant keeps 'a recorded refusal implies the limit is still reached' (inv_limit), so a refusal cannot be forgotten by anything that restores or refunds the counter; every combinator's direct reading pins its result's call tracker to its closure's. optional, repeat and negative lookahead do NOT obey the law: recorded as known findings F4 (isolated failing obligations). repeat carries its direct reading as a ghost chain of closure results (it may stop only when the closure fails); limit_reached, CallLimitTracker::default and inc_call_check_limit are verified from their bodies.",
     level_note="As C03. Choice is Result::or_else in generated code / the VM (std), outside the contracts; it absorbs refusals the same way (F4).",
     assumptions=CORE_ASSUME, not_covered=CORE_NOT_COVERED,
 )
